@@ -35,6 +35,19 @@ HIST = [False]
 
 
 def mk(kind, unit, v):
+    if HIST[0] == 2 and kind not in NUM:
+        # the caller took copies in every unit beforehand and went on converting THOSE in place: the operand itself
+        # was never touched, so it must still behave as (v, unit)
+        us = SI.units(kind)
+        q = lib(kind)(v, unit)
+        for i, u in enumerate(us):
+            try:
+                c = q.to(u)
+                if c is not q:
+                    c.to(us[(i + 1) % len(us)], inplace=True)
+            except ValueError:
+                pass
+        return q
     if HIST[0] and kind not in NUM:
         us = SI.units(kind)
         u0 = us[(us.index(unit) + 1) % len(us)]
@@ -231,9 +244,11 @@ def run_combo(ctx, idx, A, op, Bq, tier, matrix=None):
     outcomes = set()
     for n_pair, (va, vb) in enumerate(pairs):
         # every other pair uses operands that went through an in-place conversion first (object history)
-        HIST[0] = bool(n_pair % 2)
-        if HIST[0]:
+        HIST[0] = (0, 1, 0, 2)[n_pair % 4]
+        if HIST[0] == 1:
             ctx.count('operations_on_converted_objects')
+        if HIST[0] == 2:
+            ctx.count('operations_on_operands_whose_copies_were_converted')
         res = judge(ctx, ka, ua, va, op, kb, ub, vb, case)
         outcomes.add(res[1] if res[0] == 'exc' else ('result:' + res[2] if res[0] in ('ok', 'd10') else 'bad'))
         if res[0] == 'ok' and (ka != kb or ua != ub):
